@@ -903,13 +903,15 @@ pixman_image_fill_boxes (pixman_op_t           op,
     }
 
     /* The pixels can be filled in directly only if they are plain memory:
-     * an image with accessors is written through its write_func, and one
-     * with an alpha map keeps its alpha channel elsewhere.
+     * an image with accessors is written through its write_func, one
+     * with an alpha map keeps its alpha channel elsewhere, and a dithered
+     * one gets its noise when the wide pipeline writes it back.
      */
     if (op == PIXMAN_OP_SRC				&&
 	!dest->bits.read_func				&&
 	!dest->bits.write_func				&&
-	!dest->common.alpha_map)
+	!dest->common.alpha_map				&&
+	dest->bits.dither == PIXMAN_DITHER_NONE)
     {
         uint32_t pixel;
 
